@@ -1,9 +1,55 @@
-(* C05 — created PAR2 sets are valid PAR2 and carry the specified Reed-Solomon data (interim: the
-   validator's non-vacuity; the writer theorems of Proofs/Par2Create.v are added when they land). *)
-From Gopar Require Import Model.Base Model.GF16 Model.CRC Model.Par2Spec.
+(* C05 — created PAR2 sets are valid PAR2 and carry the specified Reed-Solomon data.
+   The property predicate is the executable specification-side reader Model/Par2Spec.v (valid_set),
+   run on gopar's output by the check.  Proved here about the WRITER model (Model/Par2.v, the model
+   of encoder.go / file.go / packet.go that the check compares byte for byte with gopar's output):
+   framing, padding, the volume layout, the ordering of the recovery set, and that every recovery
+   block is the specification's sum.  Not yet a theorem: that valid_set accepts the model writer's
+   output for all inputs (it is evaluated on every generated set instead). *)
+From Coq Require Import Permutation.
+From Gopar Require Import Model.Base Model.GF16 Model.Matrix Model.RS16 Model.CRC Model.GoPath Model.FS Model.Par2 Model.Par2Spec
+     Proofs.LinAlg Proofs.Matrix16 Proofs.RS16Facts Proofs.Par2Facts Proofs.Par2Create.
 Open Scope N_scope.
 
-(* the specification's first constants are 2, 4, 16, 128, 256, 2048 (2^1, 2^2, 2^4, 2^7, 2^8, 2^11) *)
+(* what the writer frames, the reader unframes, whatever follows - for every set id, type and body *)
+Theorem C05_packet_round_trip : forall md5, (forall x, length (md5 x) = 16%nat) ->
+  forall setid ptype body rest,
+  length setid = 16%nat -> length ptype = 16%nat -> (length body mod 4 = 0)%nat ->
+  64 + N.of_nat (length body) < 2 ^ 64 ->
+  read_next_packet md5 (write_packet md5 setid ptype body ++ rest) = NPPacket setid ptype body rest.
+Proof. exact packet_round_trip. Qed.
+Print Assumptions C05_packet_round_trip.
+
+Theorem C05_padding : forall b, (length (pad4 b) mod 4 = 0)%nat /\ firstn (length b) (pad4 b) = b.
+Proof. intros b. split; [apply pad4_length|apply pad4_prefix]. Qed.
+Print Assumptions C05_padding.
+
+(* the recovery files together contain blocks 0..n-1 exactly once, in order, for EVERY block count *)
+Theorem C05_layout : forall n,
+  concat (map (fun ic : nat * nat => seq (fst ic) (snd ic)) (volume_layout (S n) 0 1 n)) = seq 0 n.
+Proof. exact volume_layout_covers. Qed.
+Print Assumptions C05_layout.
+
+Theorem C05_layout_nonempty : forall n ic, In ic (volume_layout (S n) 0 1 n) -> (0 < snd ic)%nat.
+Proof. exact volume_layout_nonempty. Qed.
+Print Assumptions C05_layout_nonempty.
+
+(* the recovery set of the main packet is the sorted permutation of the inputs' file ids *)
+Theorem C05_recovery_set : forall l, ids_sorted (sort_ids l) = true /\ Permutation l (sort_ids l).
+Proof. intros l. split; [apply sort_ids_sorted|apply sort_ids_perm]. Qed.
+Print Assumptions C05_recovery_set.
+
+(* recovery block e, word w = sum over all slices j of c_j^e * slice_j[w] with the specification's
+   product and power (reduced carry-less arithmetic modulo 0x1100B), c_j the j-th constant *)
+Theorem C05_parity : forall d p D L e w,
+  (0 < d)%nat -> N.of_nat d <= 32768 -> N.of_nat p <= 65535 -> wfm16 d L D -> (e < p)%nat -> (w < L)%nat ->
+  let c := {| c_data := d; c_parity := p; c_pm := vandermonde_pm d p |} in
+  nth w (nth e (gen_parity c D) []) 0 =
+  fold_right (fun j acc => N.lxor (fmul (fpow (nth j (generators_first d) 0) (N.of_nat e)) (nth w (nth j D []) 0)) acc)
+             0 (seq 0 d).
+Proof. exact parity_is_spec_sum. Qed.
+Print Assumptions C05_parity.
+
+(* the constants of the specification-side validator: 2^1, 2^2, 2^4, 2^7, 2^8, 2^11 *)
 Theorem C05_spec_constants : s_consts 100 0 6 = [2; 4; 16; 128; 256; 2048].
 Proof. vm_compute. reflexivity. Qed.
 Print Assumptions C05_spec_constants.
